@@ -31,34 +31,95 @@ def hist(name, driver, mode="random", variant="release", events=400_000, k=3, sh
     return d
 
 
-def std_hist(driver, tier, bfs_k_quick=3, bfs_k_thorough=4, bfs_shards=None):
-    """The standard composition for a behavioural property of one driver."""
+# per driver: (bfs k quick, bfs cfg filter quick, bfs k thorough, #configs quick, #configs thorough)
+BFS = {
+    "mutex":     {"qk": 3, "tk": 4, "qn": 4, "tn": 6},
+    "semaphore": {"qk": 2, "tk": 3, "qn": 24, "tn": 48},
+    "event":     {"qk": 3, "tk": 5, "qn": 4, "tn": 6},
+    "timer":     {"qk": 3, "tk": 3, "qn": 3, "tn": 5},
+    "oneshot":   {"qk": 3, "tk": 4, "qn": 8, "tn": 12},
+    "state":     {"qk": 2, "tk": 3, "qn": 4, "tn": 6},
+    "mpmc":      {"qk": 1, "tk": 2, "qn": 16, "tn": 48},
+}
+
+
+def driver_legs(driver, tier, scale=1.0, with_bfs=True):
+    """Standard composition for one driver: fixpoint exploration + random histories at several k."""
+    b = BFS[driver]
+    out = []
     if tier == "quick":
-        return [
-            hist(f"{driver}-bfs", driver, mode="bfs", events=60_000_000, k=bfs_k_quick, shards=bfs_shards or 16, extra=["--max-states", "400000"], timeout=600),
-            hist(f"{driver}-rand", driver, events=600_000, k=3, shards=12),
-            hist(f"{driver}-rand-k5", driver, events=300_000, k=5, shards=4, seed_offset=77),
-        ]
-    return [
-        hist(f"{driver}-bfs", driver, mode="bfs", events=3_000_000_000, k=bfs_k_thorough, shards=bfs_shards or 16, extra=["--max-states", "4000000"], timeout=3000),
-        hist(f"{driver}-rand", driver, events=20_000_000, k=3, shards=8),
-        hist(f"{driver}-rand-k4", driver, events=10_000_000, k=4, shards=4, seed_offset=55),
-        hist(f"{driver}-rand-k6", driver, events=10_000_000, k=6, shards=4, seed_offset=77),
-        hist(f"{driver}-dbg", driver, variant="dbg", events=3_000_000, k=4, shards=8, seed_offset=99),
-    ]
+        if with_bfs:
+            out.append(hist(f"{driver}-bfs", driver, mode="bfs", events=80_000_000, k=b["qk"], shards=min(16, b["qn"]),
+                            extra=["--max-states", "600000"], timeout=900))
+            if driver == "mpmc":
+                out.append(hist("mpmc-bfs-k2", driver, mode="bfs", events=60_000_000, k=2, shards=8,
+                                extra=["--max-states", "400000", "--cfg", "shared=0,buf=array"], timeout=900))
+        out.append(hist(f"{driver}-rand", driver, events=int(500_000 * scale), k=3, shards=8))
+        out.append(hist(f"{driver}-rand-k5", driver, events=int(250_000 * scale), k=5, shards=4, seed_offset=77))
+    else:
+        if with_bfs:
+            out.append(hist(f"{driver}-bfs", driver, mode="bfs", events=4_000_000_000, k=b["tk"], shards=min(16, b["tn"]),
+                            extra=["--max-states", "6000000"], timeout=5400))
+            if driver == "timer":
+                out.append(hist("timer-bfs-k4-partial", driver, mode="bfs", events=300_000_000, k=4, shards=5,
+                                extra=["--max-states", "3000000", "--max-depth", "12"], timeout=3000))
+        out.append(hist(f"{driver}-rand", driver, events=int(15_000_000 * scale), k=3, shards=8))
+        out.append(hist(f"{driver}-rand-k4", driver, events=int(8_000_000 * scale), k=4, shards=4, seed_offset=55))
+        out.append(hist(f"{driver}-rand-k6", driver, events=int(8_000_000 * scale), k=6, shards=4, seed_offset=77))
+        out.append(hist(f"{driver}-dbg", driver, variant="dbg", events=int(3_000_000 * scale), k=4, shards=4, seed_offset=99))
+    return out
+
+
+ALL_DRIVERS = ["mutex", "semaphore", "event", "timer", "oneshot", "state", "mpmc"]
+
+
+def all_drivers(tier, scale=0.4):
+    out = []
+    for d in ALL_DRIVERS:
+        out += driver_legs(d, tier, scale=scale)
+    return out
 
 
 PLAN = {
-    "C02": lambda tier: std_hist("mutex", tier),
-    "C03": lambda tier: std_hist("mutex", tier),
-    "C04": lambda tier: std_hist("mutex", tier),
+    "C01": lambda tier: all_drivers(tier),
+    "C02": lambda tier: driver_legs("mutex", tier),
+    "C03": lambda tier: driver_legs("mutex", tier),
+    "C04": lambda tier: driver_legs("mutex", tier),
+    "C05": lambda tier: driver_legs("semaphore", tier),
+    "C06": lambda tier: driver_legs("semaphore", tier),
+    "C07": lambda tier: driver_legs("semaphore", tier),
+    "C08": lambda tier: driver_legs("mpmc", tier),
+    "C09": lambda tier: driver_legs("mpmc", tier),
+    "C10": lambda tier: driver_legs("mpmc", tier),
+    "C11": lambda tier: driver_legs("mpmc", tier, 0.6) + driver_legs("oneshot", tier, 0.6) + driver_legs("state", tier, 0.6),
+    "C12": lambda tier: driver_legs("oneshot", tier),
+    "C13": lambda tier: driver_legs("state", tier),
+    "C14": lambda tier: driver_legs("event", tier),
+    "C15": lambda tier: driver_legs("timer", tier),
+    "C17": lambda tier: all_drivers(tier),
+    "C18": lambda tier: all_drivers(tier),
 }
 
 FLOORS = {
     # property: (quick, thorough) minimum number of non-vacuous evaluations
+    # (set >= 10x below what the unchanged tree produces)
+    "C01": (500_000, 5_000_000),
     "C02": (100_000, 1_000_000),
     "C03": (10_000, 100_000),
     "C04": (500, 5_000),
+    "C05": (100_000, 1_000_000),
+    "C06": (10_000, 100_000),
+    "C07": (1_000, 10_000),
+    "C08": (100_000, 1_000_000),
+    "C09": (100_000, 1_000_000),
+    "C10": (20_000, 200_000),
+    "C11": (100_000, 1_000_000),
+    "C12": (50_000, 500_000),
+    "C13": (100_000, 1_000_000),
+    "C14": (100_000, 1_000_000),
+    "C15": (100_000, 1_000_000),
+    "C17": (500_000, 5_000_000),
+    "C18": (500_000, 5_000_000),
 }
 
 
